@@ -497,6 +497,7 @@ func (r *Report) tryReplay(dir string, o *Obligation, info map[string]interface{
 	}
 	pkgRel := strings.TrimPrefix(strings.TrimPrefix(fn.Pkg.Pkg.Path(), r.V.rootPath), "/")
 	models := append([]map[string]string{o.Model}, o.AltModels...)
+	altDone := o.AltModelFn == nil
 	refDir := ""
 	defer func() {
 		if refDir != "" {
@@ -505,7 +506,15 @@ func (r *Report) tryReplay(dir string, o *Obligation, info map[string]interface{
 		}
 	}()
 	ref := referenceCommit(r.VerifDir)
-	for mi, model := range models {
+	for mi := 0; mi < len(models) || !altDone; mi++ {
+		if mi >= len(models) {
+			altDone = true
+			models = append(models, o.AltModelFn()...)
+			if mi >= len(models) {
+				break
+			}
+		}
+		model := models[mi]
 		saved := o.Model
 		o.Model = model
 		src, why, ok := buildReplay(o)
